@@ -6,6 +6,8 @@ pub mod c09;
 pub mod c13;
 pub mod c14;
 pub mod c15;
+pub mod c16;
+pub mod c17;
 pub mod semantic;
 pub mod semprops;
 
@@ -26,6 +28,9 @@ pub fn by_id(id: &str) -> Option<Box<dyn Property>> {
         "C10" => Some(Box::new(c06::C10)),
         "C09" => Some(Box::new(c09::C09)),
         "C14" => Some(Box::new(c14::C14)),
+        "C16" => Some(Box::new(c16::C16)),
+        "C17" => Some(Box::new(c17::C17)),
+        "C19" => Some(Box::new(c17::C19)),
         "C07" => Some(Box::new(c07::C07)),
         "C08" => Some(Box::new(c08::C08)),
         _ => None,
